@@ -3,7 +3,5 @@
 #![allow(missing_docs, unused_imports, unused, dead_code, unreachable_pub)]
 #![allow(clippy::all, clippy::pedantic)]
 
-// Child-module probe of the repository module `filter`. Sub-files (one owner each) see that
-// module as `super::super` and may touch its private items.
-#[path = "filter_a9.rs"]
-pub mod a9;
+// owner: group a6. `super::super` is the repository module `packet`.
+use super::super::*;
